@@ -230,14 +230,35 @@ Definition sep_by {A} (sep : list token) (f : A -> list token) : list A -> list 
     | x :: l' => f x ++ sep ++ go l'
     end.
 
-(* InputFormat::from_path on the (unescaped) path text: by extension *)
-Fixpoint after_last_dot_aux (s : string) (cur : option string) : option string :=
+(* InputFormat::from_path on the (unescaped) path text: std::path::Path::extension
+   of the path. The file name is the last component once empty and [.] components
+   are dropped (none when it is [..]); the extension is what follows the last dot
+   of the file name, and there is none when that dot is the first character. *)
+Fixpoint components_aux (s : string) (cur : string) : list string :=
+  match s with
+  | EmptyString => [cur]
+  | String c s' =>
+      if Ascii.eqb c "/"%char then cur :: components_aux s' EmptyString
+      else components_aux s' (cur ++ String c EmptyString)%string
+  end.
+Definition file_name (p : string) : option string :=
+  match rev (filter (fun c => negb (String.eqb c "" || String.eqb c "."))
+                    (components_aux p EmptyString)) with
+  | [] => None
+  | c :: _ => if String.eqb c ".." then None else Some c
+  end.
+Fixpoint ext_aux (s : string) (first : bool) (cur : option string) : option string :=
   match s with
   | EmptyString => cur
   | String c s' =>
-      if Ascii.eqb c "."%char then after_last_dot_aux s' (Some s')
-      else if Ascii.eqb c "/"%char then after_last_dot_aux s' None
-      else after_last_dot_aux s' cur
+      if Ascii.eqb c "."%char
+      then ext_aux s' false (if first then cur else Some s')
+      else ext_aux s' false cur
+  end.
+Definition after_last_dot_aux (p : string) (cur : option string) : option string :=
+  match file_name p with
+  | Some n => ext_aux n true cur
+  | None => None
   end.
 Definition format_from_path (p : string) : option string :=
   match after_last_dot_aux p None with
